@@ -235,7 +235,13 @@ func (a *AsStruct) SQL() string { return "AS STRUCT" }
 
 func (a *AsValue) SQL() string { return "AS VALUE" }
 
-func (a *AsTypeName) SQL() string { return "AS " + a.TypeName.SQL() }
+func (a *AsTypeName) SQL() string {
+	// A type named VALUE must stay quoted, otherwise it is re-parsed as SELECT AS VALUE.
+	if path := a.TypeName.Path; len(path) == 1 && strings.EqualFold(path[0].Name, "VALUE") {
+		return "AS `" + path[0].Name + "`"
+	}
+	return "AS " + a.TypeName.SQL()
+}
 
 func (f *FromQuery) SQL() string {
 	return f.From.SQL()
